@@ -138,10 +138,6 @@ Proof.
   - now apply (proj1 (Forall_forall _ _) Fx).
 Qed.
 
-(** the number of tokens topK keeps *)
-Definition eff_k (n : nat) (k : Z) : nat :=
-  if (Z.of_nat n <=? k) || (k <=? 0) then n else Z.to_nat k.
-
 (** a legal result of topK: the first [eff_k] tokens of *some* descending arrangement of the input (the Go code's
     pdqsort / heap produce one such arrangement; which one, among equal values, is not specified) *)
 Definition legal_topk (ts : list tok) (k : Z) (S : list tok) : Prop :=
